@@ -37,14 +37,15 @@ def kinds_of(m: dict) -> list[str]:
 # Default texts are literals. The default *expression* Griffe reports is judged by evaluation: eval(str(default)) must succeed
 # and denote CPython's default value (same type, same repr — which is nan/inf/-0.0 safe). The pool therefore also holds
 # literals whose source text differs from repr(value): overflowing floats (inf has no literal), hex / underscore / exponent
-# notations, implicit string and bytes concatenation.
+# notations, implicit string and bytes concatenation — and strings that would parse as Python expressions ('utf-8', 'None', 'a.b',
+# 'int', 's1'): a string default must stay a string, also inside lambdas and in modules without PEP 563.
 def default_text(i: int) -> str:
     d = i % 10
     forms = (
         f"{10 + i}",
         f"'s{i}'",
         "1e999",
-        f"({i}, 2)",
+        "'utf-8'",
         f"0x1{d}",
         "-1e999",
         f"'a{i}' \"b\"",
@@ -58,6 +59,11 @@ def default_text(i: int) -> str:
         f"{d + 1}e3",
         f"b'x' b'{d}'",
         "-1e999j",
+        f"({i}, 2)",
+        "'None'",
+        f"'a.b{d}'",
+        "'int'",
+        f"'x{d} + 1'",
     )
     return forms[i % len(forms)]
 
